@@ -1,22 +1,63 @@
 HOOKS = {
     "guard": "TBFMM_VERIF",
-    "enable": "harnesses are compiled with -DTBFMM_VERIF (no hook in /repo is needed so far: all observation goes through the public API, recording kernels and the GOMP ABI boundary)",
+    "enable": "harnesses are compiled with -DTBFMM_VERIF; no hook in /repo is needed: all observation goes through the public API, recording kernels and the GOMP ABI boundary (mock libgomp)",
     "baseline_off_cmd": "cmake -S /repo -B /repo/_build -G Ninja && cmake --build /repo/_build && ctest --test-dir /repo/_build -j8 --timeout 900",
     "source_commits": [],
     "add_only": True,
 }
+ALL = ["C%02d" % i for i in range(1, 21)]
 ENGINES = [
-    {"name": "lean-model", "path": "lean/", "serves_properties": ["C07"],
-     "kind_free_text": "Lean 4 model (Impl + Spec) with theorems; compiled driver speaking the line protocol"},
-    {"name": "harness", "path": "harness/", "serves_properties": ["C07"],
-     "kind_free_text": "C++ harnesses including the real headers from /repo/src, rebuilt from the working tree (content-hashed cache)"},
+    {"name": "lean-model", "path": "lean/", "serves_properties": ALL,
+     "kind_free_text": "Lean 4 project: executable Impl model + cell-level Spec + theorems (core Lean; Mathlib only for the field algebra of C20); compiled line-protocol driver; tables regenerated from /repo/src by translators (TbfmmGen)"},
+    {"name": "harness", "path": "harness/", "serves_properties": ALL,
+     "kind_free_text": "C++ harnesses including the real headers from /repo/src (ASan+UBSan, assertions on, pattern-initialised locals), rebuilt whenever /repo/src changes (content-hashed cache); mock libgomp that defers and reorders tasks"},
+    {"name": "check-driver", "path": "tools/", "serves_properties": ALL,
+     "kind_free_text": "tools/check.py: translators -> lake build -> axiom audit -> harness build -> generators -> three-way comparison (library / Impl model / Spec oracle) -> verdict + evidence"},
 ]
-NOTES = "One driver for all checks: tools/check.py <ID> --tier quick|thorough. See DESIGN.md."
-PENDING = "not claimed yet: the check for this property is not built in this commit (work in progress, see DESIGN.md §10)"
+NOTES = "One driver for all checks: python3 tools/check.py <ID> --tier quick|thorough [--replay <file>]. See DESIGN.md."
+P = "Lean 4 theorems on an executable model + differential correspondence with the real library + spec oracle on the library's own output"
+BASE = "Lean 4.33 kernel, axioms propext / Classical.choice / Quot.sound only (audited per theorem on every run); hand-written model tied to /repo/src by this run's differential cases; g++ 12, ASan/UBSan; tools/*.py"
 CHECKS = {
-    "C07": {"category": "proof", "design_ref": "DESIGN.md §6 C07",
-            "text": "structure invariants of the built tree proved on the Lean model of the constructor; model tied to the real constructor by differential structure dumps; the invariants are also evaluated on the implementation's own dump",
-            "note": "Lean kernel + standard axioms; hand-written model tied by this run's differential cases; positions at exact cell centres",
-            "technique": "Lean 4 theorems on an executable model + differential correspondence"},
+ "C01": {"category": "proof", "design_ref": "DESIGN.md 6 C01", "technique": P, "note": BASE + "; positions at exact cell centres; sequential executor",
+         "text": "exactly-once partition proved at spec level for any dimension (far_unique, near_none); upward/downward passes proved to link every child to its parent exactly once for any grouping (upward_links); stored particles proved a permutation of the input. The remaining refinement steps (M2L/P2P group walks) are tied by a three-way differential: library calls = model calls = cell-level spec, values = closed forms, rhs = every other particle once."},
+ "C02": {"category": "proof", "design_ref": "DESIGN.md 6 C02", "technique": P, "note": BASE,
+         "text": "children handed to M2M/L2L proved to be exactly the sibling runs of the given parent (upward_links) with codes = low index bits (decode_childCode, decode_parent); every real kernel call's arguments are additionally re-derived geometrically by an independent oracle (levels, sibling sets, base-7/base-3 codes, separation, non-emptiness, leaf containment, original index + data identity)"},
+ "C03": {"category": "proof", "design_ref": "DESIGN.md 6 C03", "technique": "translator (pragmas -> Lean tables) + decide-proved coverage/capture theorems + trace-commutation theorem + mock-libgomp schedule sweeps",
+         "note": BASE + "; tools/translate_omp.py; harness/mock_gomp.cpp defines 'legal schedule'; gcc 12 maps commute to inout; Specx/StarPU not run",
+         "text": "tables of every `#pragma omp task` (dependences, firstprivate, body references, lambda nesting) and of every wrapper's accessor footprint are regenerated from /repo on each run; theorems over them: declared dependences cover actual accesses, no task reads a possibly dead variable; any legal reordering of commuting-independent tasks equals submission order (legal_exec_eq). Dynamic tie: all tasks deferred past the submitting frames, fifo/lifo/random/priority(-inverted) schedules, 1..16 workers, results equal the sequential executor bit for bit."},
+ "C06": {"category": "proof", "design_ref": "DESIGN.md 6 C06", "technique": P + "; bit-exact Float/Float32 run of the position->cell function", "note": BASE + "; IEEE rounding near cell faces: containment judged with 4 ulp tolerance",
+         "text": "stored particles proved a permutation of the input, each under the leaf index computed for it (C06_stored_perm, C06_leaf_of_particle); the float path of getIndexFromPosition is reproduced bit for bit by the same definitions run at Lean Float/Float32 over 9 scalar-type configurations; data bit-identity, zero initialisation and the symbolic-data frame of execute() are checked on the library's output"},
+ "C07": {"category": "proof", "design_ref": "DESIGN.md 6 C07", "technique": P, "note": BASE,
+         "text": "leaf level: strictly increasing indices across non-empty groups of at most bs leaves (C07_leaf_groups); fixed-size level-up = duplicate-free parents cut into non-empty groups of at most bs (levelUpFixed_flatten, upFixed_ne_nil, upFixed_size); the one-group-per-parent strategy and headers are tied by verbatim structure dumps and by evaluating every clause of C07 on the library's dump"},
+ "C08": {"category": "proof", "design_ref": "DESIGN.md 6 C08", "technique": P, "note": BASE + "; bs <= 0 outside the quantifier",
+         "text": "the links performed by the upward/downward passes are proved independent of the grouping (upward_links); counters and stored particles likewise; for all operators the same input is built under 8-11 groupings (incl. automatic and TBFMM_BLOCK_SIZE) and the multiset of elementary interactions and all values must coincide with each other and with the grouping-free spec"},
+ "C09": {"category": "proof", "design_ref": "DESIGN.md 6 C09", "technique": P, "note": BASE + "; OpenMP Tsm executor under the mock runtime",
+         "text": "same theorems as C01 applied to the source and target trees; three-way differential for the target/source executors (sequential and OpenMP): calls = model = spec, values = closed forms, every target has every source exactly once, source tree owns no result storage; structure and lookup clauses evaluated on both trees"},
+ "C10": {"category": "translation_validation", "design_ref": "DESIGN.md 6 C10", "technique": "executable Lean model of the top tree + differential + geometric image-coverage oracle on the real calls", "note": BASE + "; the all-n coverage theorem is not yet proved",
+         "text": "the top tree's calls (levels, windows, child codes) and the final values agree with the Lean model for n=-1..5, D=1..4, single-tree and target/source; the set of image boxes reached is reconstructed from the library's own calls and must equal the reported interval exactly once each; counts per particle = repetitions^D"},
+ "C11": {"category": "proof", "design_ref": "DESIGN.md 6 C11", "technique": P, "note": BASE + "; Hilbert ordering excluded (known finding)",
+         "text": "Morton algebra proved for any dimension: encode/decode bijection, parent = coordinate halving, child code = low bits; list builders, position codes and per-group builders are compared exhaustively on all cells of small levels (D=1..4, periodic and not) and against an independent geometric oracle; random indices up to 62 bits"},
+ "C12": {"category": "proof", "design_ref": "DESIGN.md 6 C12", "technique": P, "note": BASE,
+         "text": "for every cut of the executor's chain the call list of a flag set is the concatenation of the two staged call lists (C12_split_seq, C12_split_omp, by a decide-proved 64x64x6 table of hasFlag); single flags trigger only their operator; level bounds of M2M/L2L/M2L; staged runs, single-flag frames and upper levels 0..H are also executed on the library (sequential and OpenMP)"},
+ "C13": {"category": "proof", "design_ref": "DESIGN.md 6 C13", "technique": P, "note": BASE,
+         "text": "gather/scatter by original index proved mutually inverse (stored indices are a permutation of 0..N-1); move/rebuild/execute histories over 9 scalar configurations: identity, data bits, leaf containment, preserved results, zero expansions, structure = fresh tree of edited particles, next execution adds exactly one full interaction"},
+ "C14": {"category": "proof", "design_ref": "DESIGN.md 6 C14", "technique": P, "note": BASE,
+         "text": "for any block list, element sizes and counts: leading dimension >= size and multiple of 64, every accessor inside its block, blocks chained without overlap, trailer disjoint from blocks also in a reused larger allocation, alignment; 40 instantiated layouts compared address by address with the model incl. reuse, byte copy and move; byte copies of every group of real trees viewed through the raw-memory constructors"},
+ "C15": {"category": "other", "design_ref": "DESIGN.md 6 C15", "technique": "proved bounds on the model + sanitizer sweep of every harness family", "note": BASE + "; sanitizers only see executions that happen",
+         "text": "partial: in-bounds/alignment (C14), lookup exactness (C16) and task capture safety (C03 tables) are theorems; heap lifetime, leaks and UB of the C++ itself cannot be theorems about a model and are explored: all families under ASan+LSan+UBSan, assertions on, deferred tasks, pattern-initialised locals"},
+ "C16": {"category": "proof", "design_ref": "DESIGN.md 6 C16", "technique": P, "note": BASE,
+         "text": "the binary-search loop is proved to return the first position not below the key (lowerBoundIdx_spec) and the in-group lookup to find an index iff present with the right position (findCell_spec); group selection is compared exhaustively over all indices of small levels and against an existence oracle on the library's own dump"},
+ "C17": {"category": "proof", "design_ref": "DESIGN.md 6 C17", "technique": P, "note": BASE,
+         "text": "stored original indices proved a permutation of 0..N-1, so indexing the export by original index writes every row once; exports of data (1..6 values, float/double) and results (0..4 values) compared with the input / the tree before and after execution and rebuild"},
+ "C18": {"category": "proof", "design_ref": "DESIGN.md 6 C18", "technique": P, "note": BASE + "; timer wrapper not exercised",
+         "text": "counters of a call list = counters of its elementary interactions whatever the batching (C18_counts_are_elems); merge is commutative/associative and any distribution of calls over workers merges to the same totals (C18_merge_perm, C18_workers); counter-wrapped recording kernel under sequential and OpenMP/mock with 1..16 workers and random merge order; wrapped results = unwrapped"},
+ "C19": {"category": "other", "design_ref": "DESIGN.md 6 C19", "technique": "compile matrix of harness translation units + per-configuration correspondence", "note": "g++ 12 -std=c++17; Specx/StarPU absent",
+         "text": "partial: 'instantiates' is decided by compiling one harness TU per configuration (33 TUs: dimensions 1-4 x periodic x executors x tree kinds x scalar types); the guarantees are theorems generic in D and grouping and every compiled configuration runs the exactly-once correspondence"},
+ "C20": {"category": "proof", "design_ref": "DESIGN.md 6 C20", "technique": "Lean theorems over an arbitrary field + bit-exact Float/Float32 run of the same definitions + 60-digit reference", "note": BASE + "; Mathlib (ring, field_simp) for the algebra; scalar path only",
+         "text": "over any field with any function in place of sqrt: the one-sided routine adds exactly the sum of pair terms, the mutual routine's targets equal the one-sided result and each source receives the exact negation; with rs(1/r^2)=1/r the terms are q/r and q_i q_j dx/r^3; the same definitions run at Float/Float32 reproduce the library bit for bit; results within rounding of a 60-digit evaluation"},
 }
-NOT_APPLICABLE = {p: PENDING for p in ["C%02d" % i for i in range(1, 21)]}
+REASONS = {
+ "C04": "not claimed yet: numeric probe of the rotation kernel not built in this commit",
+ "C05": "not claimed yet: numeric probe of the uniform kernel not built in this commit",
+}
+NOT_APPLICABLE = {p: REASONS.get(p, "not claimed in this commit") for p in ALL}
